@@ -145,6 +145,12 @@ theorem java_writes_struct_fields (c : Cfg) (nm : String) (items : Items) (hw : 
     simp only [hp]
     exact items_refE3 c.e items p v items bs hw h
 
+/-- the class of `java_reads_struct_fields` contains the class of `java_reads_arrays_and_payloads` (so the former subsumes the
+    latter; both are kept because they are about `decodeFullS` and `decodeFull` respectively, which agree there) -/
+theorem struct_field_class_contains_the_array_class (items : Items) (h : decWfItems2 items = true) :
+    decWfItems3 items = true :=
+  decWfItems3_of_2 items h
+
 /-- the model the driver runs against the emitted classes also covers struct-typed fields (`Pdlv.JavaStruct`: the struct parsed
     from `buf.slice()`, the buffer advanced by its `width()`; compared by execution, no theorem of their own); on the classes of
     the two theorems above it IS the model they are about -/
